@@ -55,10 +55,7 @@ func refValid(method int64, xff float32, s []int64, n []int64) bool {
 }
 
 func vrtC07Fields() (int64, float32, []int64, []int64, ArchiveInfoList) {
-	maxA := 2
-	if vrt.Tier() == 1 {
-		maxA = 3
-	}
+	maxA := 3
 	na := vrt.Choose("A", maxA+1)
 	method := int64(vrt.I32("method"))
 	xff := vrt.F32("xff")
@@ -69,7 +66,8 @@ func vrtC07Fields() (int64, float32, []int64, []int64, ArchiveInfoList) {
 		ni := vrt.U32(vrt.N("N", i))
 		s = append(s, int64(si))
 		n = append(n, int64(ni))
-		list = append(list, NewArchiveInfo(Duration(si), ni))
+		// the caller's list may carry stale offsets (e.g. derived from another file's header)
+		list = append(list, ArchiveInfo{offset: vrt.U32(vrt.N("staleOff", i)), secondsPerPoint: Duration(si), numberOfPoints: ni})
 	}
 	return method, xff, s, n, list
 }
